@@ -12,9 +12,9 @@ type SchedSpec struct {
 	Name   string
 	API    string
 	Check  string
-	Body   func() string            // runs the real code under the controlled scheduler, returns the observation
-	Judge  func(obs string) string  // "" when the observation satisfies the oracle, else what was expected
-	Mode   string                   // "dpor", "bounded", "naive"
+	Body   func() string           // runs the real code under the controlled scheduler, returns the observation
+	Judge  func(obs string) string // "" when the observation satisfies the oracle, else what was expected
+	Mode   string                  // "dpor", "bounded", "naive"
 	Opt    explore.Options
 	Expect string // if Judge is nil: the only acceptable observation
 }
